@@ -422,11 +422,26 @@ def oracle_c14(tr, sc, rng):
             V(clause, site, detail, **ident)
 
     # -- 1./5. per accepted step exactly one record per quantity after filtering out recomputed values
-    for q in sorted(types):
+    # quantities that must be present because of the configuration, whether or not a record of that type exists at all
+    cfgx = sc['config']
+    expected = {'niter', 'residual_post_step'}
+    hk = set(cfgx.get('hooks', []))
+    ccn = {n for n, _ in cfgx.get('cc', [])}
+    if 'LogSolution' in hk:
+        expected.add('u')
+    if 'LogStepSize' in hk:
+        expected.add('dt')
+    if any(n.startswith('BasicRestarting') for n in ccn):
+        expected.add('restart')
+    if 'Adaptivity' in ccn and any(a.get('e_est') for a in acc):
+        expected.add('error_embedded_estimate')
+    for q in sorted(types | expected):
         if q.startswith('timing') or q.startswith('_'):
             continue
         if q in START_KEYED:
             want = {fbits(a['t']): a for a in acc}
+        elif q == 'error_embedded_estimate':
+            want = {fbits(a['t'] + a['dt']): a for a in acc if a.get('e_est')}  # the hook records truthy estimates only
         elif q in END_KEYED or q.startswith('work_'):
             want = {fbits(a['t'] + a['dt']): a for a in acc}
         else:
@@ -487,6 +502,24 @@ def oracle_c14(tr, sc, rng):
         if set(allf) != set(union):
             d = list(set(allf) ^ set(union))[0]
             VF(fbits(d.time) if d.time is not None else b'', 'filter_untyped_differs', 'filter_stats', f'filter_stats(recomputed=False) differs from the union of the per-type results, e.g. at key {tuple(d)}', type=d.type)
+        # a key that every record of a quantity carries anyway must not change what recomputed=False leaves of it
+        if any(k.type == '_recomputed' for k in keys):
+            for q in sorted(types):
+                if q.startswith('_') or q.startswith('timing'):
+                    continue
+                mine = [k for k in keys if k.type == q]
+                base = None
+                for f in ('level', 'process', 'sweep', 'iter', 'num_restarts'):
+                    vals = {getattr(k, f) for k in mine}
+                    if len(vals) != 1 or None in vals:
+                        continue
+                    if base is None:
+                        base = set(filter_stats(stats, type=q, recomputed=False))
+                    got = set(filter_stats(stats, type=q, recomputed=False, **{f: next(iter(vals))}))
+                    if got != base:
+                        d = sorted(got ^ base, key=lambda k: (k.time, k.num_restarts))[0]
+                        V('filter_extra_key_changes_recomputed', 'filter_stats', f"type {q!r}: adding {f}={next(iter(vals))!r} (carried by every record of that type) to recomputed=False changes the result ({len(got)} vs {len(base)} records), e.g. at time {d.time!r}", type=q, field=f)
+                        break
         for _ in range(4):
             k0 = keys[rng.randrange(len(keys))]
             fields = rng.sample(['process', 'time', 'level', 'iter', 'sweep', 'type', 'num_restarts'], rng.randint(1, 3))
@@ -823,14 +856,27 @@ def oracle_c01(tr, sc):
     post = {(r['block'], r['slot']): r for r in ctx.shadow_recs if r['at'] == 'post_step'}
     acc = [a for a in ctx.attempts if a.get('post') and a.get('accepted')]
     acc.sort(key=lambda a: (a['block'], a['slot']))
-    prev = None
+    prev, prev_conv = None, False
+    lag_cfg = cfg['P'] > 1 and not isinstance(sp.get('num_nodes'), list) and coll_update
+    fault_on_u0 = any(f.get('node') == 0 for f in sc['faults'].get('soft', []))
     for a in acc:
         rec = post.get((a['block'], a['slot']))
         if rec is None or not np.isfinite(rec['full']):
+            prev = None
             continue
-        # the step starts from the previous accepted step's end value (the first from the caller's value)
-        # (bitwise chaining of start values is C06's clause; here the reference simply starts from the value the step used)
-        prev = a
+        # the step starts from the previous accepted step's end value (the first from the caller's value): bitwise chaining is
+        # C06's clause; here, for two consecutive steps that both report convergence, up to a small multiple of the tolerance
+        # (not judged: collocation-update multi-step configurations = finding F09, histories in which a soft fault hit an initial value)
+        rtype0 = cfg['level'].get('residual_type', 'full_abs')
+        if prev is not None and not lag_cfg and not fault_on_u0 and restol > 0 and rec['reported'] <= restol and prev_conv:
+            x0, xe = np.asarray(a['u0_post']).reshape(-1), np.asarray(prev['uend']).reshape(-1)
+            if x0.shape == xe.shape:
+                dd = float(np.max(np.abs(x0 - xe))) if x0.size else 0.0
+                sc_ = float(np.max(np.abs(xe))) if xe.size else 0.0
+                tol0 = restol * (sc_ if rtype0.endswith('rel') else 1.0)
+                if dd > 10 * tol0 + 64 * EPS * sc_:
+                    V('start_not_previous_end', 'it_check', f"step at t={a['t']!r} (block {a['block']} slot {a['slot']}) and its predecessor both report convergence, but it starts {dd:.3e} away from the predecessor's end value (restol {restol:.3e})")
+        prev, prev_conv = a, rec['reported'] <= restol
         uref, kend, kappa, Un, normA = sh.reference_step(a['u0_post'], a['t'], a['dt'], coll_update)
         tau = rec['full']
         err = float(np.max(np.abs(np.asarray(a['uend']).reshape(-1) - uref)))
